@@ -252,6 +252,11 @@ func authHeader(s Site, cred string) string {
 			return enc(s.Auth[0].User, "nope")
 		}
 		return enc("alice", "nope")
+	case "emptypw":
+		if len(s.Auth) > 0 {
+			return enc(s.Auth[0].User, "")
+		}
+		return enc("alice", "")
 	case "fileuser":
 		// a valid pair of the htpasswd file, but not the user any rule names
 		return enc("carol", "carol-pass")
@@ -325,6 +330,29 @@ func runCase(c *Case) (nontrivial int, err error) {
 		}
 		return srv.Once(addr, r.Method, srv.Request(r.Method, r.Target, host, hdr, body))
 	}
+	disclosure := func(desc string, r Req, resp *srv.Resp) error {
+		for _, blob := range decodeAll(resp, r.Target) {
+			for _, f := range t.TokensIn(blob) {
+				if f.Outside {
+					continue
+				}
+				urlPath := "/" + f.Rel
+				if forb, why := disclosureForbidden(c.Site, r, urlPath); forb {
+					return fmt.Errorf("%s: response (status %d) contains content of %s, protected by %s", desc, resp.Status, urlPath, why)
+				}
+			}
+			if bytes.Contains(blob, []byte("some fastcgi content")) {
+				vt.Extra("protected", "responses_with_a_fastcgi_reply", 1)
+			}
+			for _, m := range backendRe.FindAllSubmatch(blob, -1) {
+				bp := string(m[1])
+				if forb, why := disclosureForbidden(c.Site, r, bp); forb {
+					return fmt.Errorf("%s: response (status %d) contains the backend's reply for %s, protected by %s", desc, resp.Status, bp, why)
+				}
+			}
+		}
+		return nil
+	}
 	for i, r := range c.Reqs {
 		resp, e := do("prot.test", r)
 		if e != nil {
@@ -336,25 +364,8 @@ func runCase(c *Case) (nontrivial int, err error) {
 		desc := fmt.Sprintf("request %d %s %q cred=%s AE=%q on site auth=%+v internal=%v others=%v", i, r.Method, r.Target, r.Cred, r.AE, c.Site.Auth, c.Site.Internal, c.Site.Others)
 		touched := false
 		// oracle 1: no content of a resource this request may not see
-		for _, blob := range decodeAll(resp, r.Target) {
-			for _, f := range t.TokensIn(blob) {
-				if f.Outside {
-					continue
-				}
-				urlPath := "/" + f.Rel
-				if forb, why := disclosureForbidden(c.Site, r, urlPath); forb {
-					return nontrivial, fmt.Errorf("%s: response (status %d) contains content of %s, protected by %s", desc, resp.Status, urlPath, why)
-				}
-			}
-			if bytes.Contains(blob, []byte("some fastcgi content")) {
-				vt.Extra("protected", "responses_with_a_fastcgi_reply", 1)
-			}
-			for _, m := range backendRe.FindAllSubmatch(blob, -1) {
-				bp := string(m[1])
-				if forb, why := disclosureForbidden(c.Site, r, bp); forb {
-					return nontrivial, fmt.Errorf("%s: response (status %d) contains the backend's reply for %s, protected by %s", desc, resp.Status, bp, why)
-				}
-			}
+		if err := disclosure(desc, r, resp); err != nil {
+			return nontrivial, err
 		}
 		if u, perr := url.ParseRequestURI(r.Target); perr == nil {
 			cp := path.Clean("/" + u.Path)
@@ -410,6 +421,38 @@ func runCase(c *Case) (nontrivial int, err error) {
 				return nontrivial, fmt.Errorf("%s: valid credentials, body (%d bytes) differs from the body of the same site without the protection directive (%d bytes)", desc, len(resp.Body), len(twin.Body))
 			}
 		}
+	}
+	// the same requests once more, several at a time: what a request is shown
+	// must not depend on the credentials other requests are presenting meanwhile
+	var wg sync.WaitGroup
+	cerr := make(chan error, 8)
+	for g := 0; g < 8; g++ {
+		wg.Add(1)
+		go func(g int) {
+			defer wg.Done()
+			for k := range c.Reqs {
+				i := (k*7 + g*3) % len(c.Reqs)
+				r := c.Reqs[i]
+				resp, e := do("prot.test", r)
+				if e != nil {
+					continue
+				}
+				desc := fmt.Sprintf("request %d %s %q cred=%s AE=%q, issued while 7 other clients were sending the case's other requests, on site auth=%+v internal=%v others=%v", i, r.Method, r.Target, r.Cred, r.AE, c.Site.Auth, c.Site.Internal, c.Site.Others)
+				if err := disclosure(desc, r, resp); err != nil {
+					select {
+					case cerr <- err:
+					default:
+					}
+					return
+				}
+			}
+		}(g)
+	}
+	wg.Wait()
+	select {
+	case err := <-cerr:
+		return nontrivial, err
+	default:
 	}
 	return nontrivial, nil
 }
@@ -469,6 +512,10 @@ func genSite(t *rapid.T) Site {
 	}
 	if kind >= 2 {
 		s.Internal = []string{rapid.SampledFrom(scopeSpell["/internal"]).Draw(t, "int0")}
+		if rapid.IntRange(0, 3).Draw(t, "intfile") == 0 {
+			// an internal *file*, among them index pages of directories that are not internal themselves
+			s.Internal = append(s.Internal, rapid.SampledFrom([]string{"/secret/index.html", "/index.html", "/public/p1.txt", "/noindex/priv/n1.txt"}).Draw(t, "intf"))
+		}
 		if rapid.IntRange(0, 2).Draw(t, "intpriv") == 0 {
 			// an internal scope below a directory without index page, so that listings and archives of its parent exist
 			s.Internal = append(s.Internal, rapid.SampledFrom(scopeSpell["/noindex/priv"]).Draw(t, "int0b"))
@@ -572,7 +619,7 @@ func TestProtected(t *testing.T) {
 			r := Req{Method: rapid.SampledFrom([]string{"GET", "GET", "GET", "HEAD", "POST", "PUT", "DELETE", "PROPFIND", "OPTIONS"}).Draw(t, lb+"m"),
 				Target: genTarget(t, c.Site, lb),
 				AE:     rapid.SampledFrom([]string{"-", "gzip", "gzip, br", "zstd, gzip"}).Draw(t, lb+"ae"),
-				Cred:   rapid.SampledFrom([]string{"none", "none", "none", "wrongpw", "wronguser", "fileuser", "malformed", "rule0", "rule1"}).Draw(t, lb+"c")}
+				Cred:   rapid.SampledFrom([]string{"none", "none", "none", "wrongpw", "wronguser", "emptypw", "fileuser", "malformed", "rule0", "rule0", "rule1"}).Draw(t, lb+"c")}
 			if vt.Open("archive-bypasses-protection") && hasOther(c.Site, "browse-arch") && strings.Contains(r.Target, "archive=") {
 				// exclude by construction exactly the listed finding: an archive of a
 				// directory that is a strict ancestor of a protected scope
